@@ -2,13 +2,15 @@
 
    `stable_run_state` : if the stored inventory of c1 is the sorted duplicate-free
    list L, every apply id of the plan of the run is in L and live in c1, every
-   key of L that is not a manifest id is live in c1 and (when pruning is
+   key of L that is not a manifest id is live in c1 AND OF A KIND KNOWN IN c1
+   (dyn: hypothesis HK, new with dynamic type knowledge) and (when pruning is
    enabled) the plan has no valid prune object, then a non-dry client-side apply
    run from c1 logs only requests accepted by the fixpoint clause and leaves the
    stored inventory equal to L.  No hypothesis on the faults, wait schedules or
    cancellation of that run: it may end with an error.
    `stable_run_state_simple` : the same from the simpler premises "every key of L
-   is live, every manifest id is in L, and with pruning L holds only manifest ids".
+   is live, every manifest id is in L, and with pruning L holds only manifest ids"
+   (dyn: plus "every key of L outside the manifest has a kind known in c1").
 
    The inventory-set task needs the retention table to give back L: invariant
    `TI` on the actuation table (every id of an apply task already run has an
@@ -67,6 +69,13 @@ Section Run2.
   Hypothesis HA : forall i, In i (apply_ids pl) -> In i L /\ fo c1 i <> None.
   (* tracked ids outside the manifest are live (so they are all fetched as prune candidates) *)
   Hypothesis HX : forall i, In i L -> ~ In i lids -> fo c1 i <> None.
+  (* dyn: NEW hypothesis.  A tracked id outside the manifest must have a kind the mapper knows at the
+     start of the run (its CRD is live in c1): otherwise it is not fetched as a prune candidate
+     (fetch_all / plan_of skip it), it gets no record and is not invalid, so the retention table drops
+     it and the inventory-set task writes L without it (RInvUpdate l with l <> L).
+     Example: o_prune = false, L = [0; 1], manifest = [0], object 1 live with u_crd = Some 2 and
+     CRD 2 not live in c1: the run ends with RInvUpdate [0]. *)
+  Hypothesis HK : forall i, In i L -> ~ In i lids -> kind_known sc (live_crds sc c1) i = true.
   (* with pruning enabled no prune candidate is valid *)
   Hypothesis HP : o_prune (sc_opts sc) = true -> pl_prune pl = [].
 
@@ -85,7 +94,7 @@ Section Run2.
   Lemma apply_ids_local i : In i (apply_ids pl) -> In i lids.
   Proof.
     intros H. unfold apply_ids in H. apply in_map_iff in H. destruct H as [p [<- Hp]].
-    rewrite plan_of_eq in Hp. destruct (bp_apply_is_local sc _ _ p Hp) as [l [-> Hl]].
+    rewrite plan_of_eq in Hp. destruct (bp_apply_is_local sc _ _ _ p Hp) as [l [-> Hl]].
     rewrite locals_of_eq in Hl. cbn. apply in_map. exact Hl.
   Qed.
   Lemma apply_ids_L i : In i (apply_ids pl) -> In i L.
@@ -103,7 +112,7 @@ Section Run2.
       destruct H' as [HiL HiN].
       destruct (fo c1 i) as [c|] eqn:E; [|exfalso; exact (HX i HiL HiN E)].
       apply in_map_iff. exists c. pose proof (find_obj_id _ _ _ E) as EI. split; [exact EI|].
-      apply found_in_In. rewrite EI. split; [exact H|exact E].
+      apply found_in_In_iff. rewrite EI. split; [exact H|]. split; [exact E|exact (HK i HiL HiN)].
   Qed.
 
   Lemma no_prune_objs : o_prune (sc_opts sc) = true -> pl_prune pl = [].
@@ -115,7 +124,7 @@ Section Run2.
     intros P H1 H2. pose proof (proj2 (prune_all_ids i) (conj H1 H2)) as X.
     rewrite plan_of_eq, bp_prune_all_eq in X. unfold pruneA in X. rewrite map_map in X. cbn [pobj_of_live p_id] in X.
     apply in_map_iff in X. destruct X as [c [<- Hc]].
-    destruct (bp_cover_prune sc (locals_of sc) (found_in c1 (cand_of sc c1)) c Hc) as [Y|Y].
+    destruct (bp_cover_prune sc (live_crds sc c1) (locals_of sc) (found_in sc c1 (cand_of sc c1)) c Hc) as [Y|Y].
     - rewrite plan_of_eq. exact Y.
     - rewrite <- plan_of_eq, (HP P) in Y. destruct Y.
   Qed.
@@ -126,7 +135,7 @@ Section Run2.
   Lemma todo_apply i : In i (apply_ids pl) -> In i (todo_of (tasks_of sc pl)).
   Proof.
     intros H. rewrite plan_of_eq.
-    apply (proj2 (tasks_todo sc (locals_of sc) (found_in c1 (cand_of sc c1))
+    apply (proj2 (tasks_todo sc (live_crds sc c1) (locals_of sc) (found_in sc c1 (cand_of sc c1))
                     (locals_of_NoDup sc lnd) (pobjs_NoDup sc c1) (pobjs_disj sc c1))).
     left. rewrite <- plan_of_eq. exact H.
   Qed.
@@ -355,15 +364,17 @@ Theorem stable_run_state_simple : forall sc c1 L,
   (forall i, In i L -> fo c1 i <> None) ->
   (forall i, In i (map l_id (sc_local sc)) -> In i L) ->
   (o_prune (sc_opts sc) = true -> forall i, In i L -> In i (map l_id (sc_local sc))) ->
+  (* dyn: NEW last premise (see HK above): tracked ids outside the manifest have a known kind in c1 *)
+  (forall i, In i L -> ~ In i (map l_id (sc_local sc)) -> kind_known sc (live_crds sc c1) i = true) ->
   Good L (apply_ids (plan_of sc c1)) (r_cl (run_state sc c1)) /\ Forall (Qf L) (r_tr (run_state sc c1)).
 Proof.
-  intros sc c1 L HO1 HO2 HO3 HS HN HND HI HLive HL1 HL2.
+  intros sc c1 L HO1 HO2 HO3 HS HN HND HI HLive HL1 HL2 HK.
   assert (HX : forall i, In i L -> ~ In i (map l_id (sc_local sc)) -> fo c1 i <> None) by (intros i Hi _; apply HLive, Hi).
-  apply (stable_run_state sc c1 L HO1 HO2 HO3 HS HN HND HI); [|exact HX|].
+  apply (stable_run_state sc c1 L HO1 HO2 HO3 HS HN HND HI); [|exact HX|exact HK|].
   - intros i Hi. pose proof (apply_ids_local sc c1 HO1 i Hi) as Hl. split; [apply HL1, Hl|apply HLive, HL1, Hl].
   - intros P. destruct (pl_prune (plan_of sc c1)) as [|q t] eqn:E; [reflexivity|]. exfalso.
     assert (Hq : In q (pl_prune (plan_of sc c1))) by (rewrite E; left; reflexivity).
     rewrite plan_of_eq in Hq. apply bp_prune_sub in Hq. rewrite <- plan_of_eq in Hq.
     assert (X : In (p_id q) (map p_id (pl_prune_all (plan_of sc c1)))) by (apply in_map; exact Hq).
-    apply (prune_all_ids sc c1 L HO1 HI HX) in X. destruct X as [X Y]. exact (Y (HL2 P _ X)).
+    apply (prune_all_ids sc c1 L HO1 HI HX HK) in X. destruct X as [X Y]. exact (Y (HL2 P _ X)).
 Qed.
